@@ -88,10 +88,15 @@ def printPath : Option (List Elem) → Option (List Char)
 /-! ## parser -/
 
 /-- which source is modelled: `fixedNs` = target namespace regex `[0-9]+` (pinned: one char of
-`[0-9+]`), `dotAll` = the `(?s)` flag on both regexes (pinned: `.` stops at `\n`) -/
+`[0-9+]`), `dotAll` = the `(?s)` flag on both regexes (pinned: `.` stops at `\n`), `unescRef` = the
+browse name of a bracketed reference type is unescaped before it is resolved (pinned: resolved as
+written), `firstGt` = that name is `(?:&.|[^&>#!])(?:&.|[^&>])*`, i.e. ends at the first unescaped `>`
+(pinned: `[^#!].*` = up to the LAST `>`; `firstGt` is only used together with `dotAll`) -/
 structure Cfg where
   fixedNs : Bool
   dotAll : Bool
+  unescRef : Bool
+  firstGt : Bool
 
 /-- what `.*` consumes: the rest of the text, or (pinned) the rest of the current line -/
 def takeLine (cfg : Cfg) (cs : List Char) : List Char := if cfg.dotAll then cs else (spanP (· ≠ '\n') cs).1
@@ -126,12 +131,40 @@ def splitLastGt : List Char → Option (List Char × List Char)
     | some (a, b) => some (c :: a, b)
     | none => if c = '>' then some ([], cs) else none
 
-/-- `(?P<name>[^#!].*)>` then `(?P<target>.*)`: name, target -/
+/-- `(?:&.|[^&>])*>`: the (still escaped) text up to the first unescaped `>`, and what follows it -/
+def nameRest : List Char → Option (List Char × List Char)
+  | [] => none
+  | '>' :: r => some ([], r)
+  | ['&'] => none
+  | '&' :: y :: r =>
+    match nameRest r with
+    | some (a, b) => some ('&' :: y :: a, b)
+    | none => none
+  | c :: r =>
+    match nameRest r with
+    | some (a, b) => some (c :: a, b)
+    | none => none
+
+/-- the name of a bracketed reference type and the target text after the closing `>`:
+current `(?P<name>(?:&.|[^&>#!])(?:&.|[^&>])*)>`, pinned `(?P<name>[^#!].*)>` -/
 def bracketName (cfg : Cfg) (cs : List Char) : Option (List Char × List Char) :=
   match cs with
   | [] => none
   | c0 :: r =>
-    if c0 = '#' ∨ c0 = '!' then none
+    if cfg.firstGt then
+      if c0 = '&' then
+        match r with
+        | [] => none
+        | y :: r' =>
+          match nameRest r' with
+          | some (a, b) => some ('&' :: y :: a, b)
+          | none => none
+      else if c0 = '>' ∨ c0 = '#' ∨ c0 = '!' then none
+      else
+        match nameRest r with
+        | some (a, b) => some (c0 :: a, b)
+        | none => none
+    else if c0 = '#' ∨ c0 = '!' then none
     else
       match splitLastGt (takeLine cfg r) with
       | some (a, b) => some (c0 :: a, b)
@@ -214,12 +247,13 @@ def parseElem (cfg : Cfg) (tok : List Char) : Option Elem :=
       | .slash => some ⟨⟨0, .numeric hierarchicalReferences⟩, false, true, tn⟩
       | .dot => some ⟨⟨0, .numeric aggregates⟩, false, true, tn⟩
       | .angle b =>
+        let name := if cfg.unescRef then unescapeBN b.name else b.name
         match b.nsidx with
-        | none => some ⟨resolveNode 0 b.name, b.inverse, b.subtypes, tn⟩
+        | none => some ⟨resolveNode 0 name, b.inverse, b.subtypes, tn⟩
         | some d =>
-          if d = ['0'] then some ⟨resolveNode 0 b.name, b.inverse, b.subtypes, tn⟩
+          if d = ['0'] then some ⟨resolveNode 0 name, b.inverse, b.subtypes, tn⟩
           else match parseUnsigned 65535 d with
-            | some ns => some ⟨resolveNode ns b.name, b.inverse, b.subtypes, tn⟩
+            | some ns => some ⟨resolveNode ns name, b.inverse, b.subtypes, tn⟩
             | none => none
 
 /-- state of the tokenizer loop -/
@@ -267,11 +301,11 @@ def finishLoop (cfg : Cfg) : LoopOut → Option (List Elem)
 def parsePathWith (cfg : Cfg) (path : List Char) : Option (List Elem) :=
   finishLoop cfg (tokLoop cfg ⟨[], false, []⟩ path)
 
-/-- the current source (after the two `fix:` commits) -/
-def current : Cfg := ⟨true, true⟩
+/-- the current source (after the four `fix:` commits) -/
+def current : Cfg := ⟨true, true, true, true⟩
 
 /-- the pinned source -/
-def pinned : Cfg := ⟨false, false⟩
+def pinned : Cfg := ⟨false, false, false, false⟩
 
 def parsePath := parsePathWith current
 
